@@ -17,7 +17,10 @@ from pathlib import Path
 
 # the directory of this development: /verif, or a snapshot of it (vp run) - everything is relative to it
 VERIF = Path(os.environ.get("VERIF_ROOT") or Path(__file__).resolve().parents[2])
-REPO = Path("/repo")
+# development only: VERIF_REPO points the checks at a scratch worktree (seeded-change evaluation in parallel) and
+# VERIF_OUT receives evidence / replay files then; the registered commands set neither, so they run against /repo
+REPO = Path(os.environ.get("VERIF_REPO") or "/repo")
+OUT = Path(os.environ.get("VERIF_OUT") or VERIF)
 COQ = VERIF / "coq"
 PY = "/venv/bin/python"
 
@@ -200,8 +203,8 @@ class Ctx:
             "wall_s": round(wall, 2),
             "violations": nviol,
         }
-        (VERIF / "evidence").mkdir(exist_ok=True)
-        (VERIF / "evidence" / f"{self.prop}.json").write_text(
+        (OUT / "evidence").mkdir(exist_ok=True, parents=True)
+        (OUT / "evidence" / f"{self.prop}.json").write_text(
             json.dumps(ev, indent=1, default=repr, ensure_ascii=True) + "\n")
         shutil.rmtree(self.tmp, ignore_errors=True)
         if os.environ.get("VERIF_VERBOSE"):
@@ -215,8 +218,8 @@ class Ctx:
         for k, (what, data, no_input) in enumerate(ordered[:5], 1):
             if concrete and broken:
                 data = dict(data, broken_obligations=[b[0][:300] for b in broken[:5]])
-            rp = VERIF / "replays" / f"{self.prop}-{self.seed}-{k}.json"
-            rp.parent.mkdir(exist_ok=True)
+            rp = OUT / "replays" / f"{self.prop}-{self.seed}-{k}.json"
+            rp.parent.mkdir(exist_ok=True, parents=True)
             rp.write_text(json.dumps(data, indent=1, default=repr, ensure_ascii=True))
             line = f"VIOLATION property={self.prop} replay={rp}"
             if no_input:
